@@ -32,6 +32,8 @@ SIMPLE = {
     'things:data_loader': ('x', ['child']),
     'things:mutating': ('x', ['child']),
     'things:kwf': ('a', ['z0', 'z1']),
+    'things:SubCM.make': ('x', ['child']),
+    'things:BaseCM.make': ('x', ['child']),
     'things:kwg': ('a', ['z0', 'z1']),
 }
 
@@ -135,6 +137,8 @@ def dag(draw, *, max_nodes=12, leaf_profile='plain', kinds=None, p_alias=0.55,
         kw['z0'] = ref()
       node = {'k': 'B', 'bt': draw(st.sampled_from(list(bts))), 'fn': {'kind': 'sym', 'name': 'things:g3'},
               'pos': pos, 'kw': kw, 'edits': []}
+      if len(pos) >= 3 and draw(st.sampled_from(range(4))) == 0:
+        node['edits'].append(['delitem', 1])   # the defaulted parameter b is unset although *args has values
       if tags and draw(st.floats(0, 1)) < 0.5:
         key = draw(st.sampled_from(['a', 'b', 'k'] + list(range(len(pos)))))
         node['tags'] = [[key, draw(st.sampled_from(['TagA', 'TagB', 'TagC', 'TagX']))]]
